@@ -114,7 +114,10 @@ class DataType:
                 return self
             return DataType(self.kind, nullable=True)
 
-        vtype = type(value)
+        # Classify the value the way inference classifies a first element, so that a
+        # subclass instance (an IntEnum member, a str subclass) counts as the same kind
+        # whether it comes first or later in a sequence
+        vtype = infer_kind(value)
 
         # Case 2: Exact match
         if vtype is self.kind:
